@@ -1,5 +1,5 @@
 """C09 — returned L, U and permutations are well-formed data structures."""
-from vlib import sweep as S, common as C
+from vlib import sweep as S, common as C, fixup as FX
 LEVEL = "proof"
 EXPLANATION = ("Theorems (lean/SluVerif/Props/C09.lean) are about the executable well-formedness predicate of "
                "Model/Sparse.lean and the fixupL/countnz models; the predicate is evaluated by the compiled Lean "
@@ -8,6 +8,13 @@ ASSUMPTIONS = ["array capacities (nzlmax etc.) are not part of SCP/NCP, so 'insi
 
 
 def run(ctx):
+    st, dis = FX.run(ctx, 1500 if ctx.quick() else 30000)
+    ctx.coverage["fixupL_countnz"] = st
+    ctx.coverage["traces_validated_against_impl"] = st["cases"]
+    for d in [x for x in dis if x["kind"] == "fixupL-property"][:5]:
+        ctx.violation("fixupL-spec", "real fixupL/countnz output is not the specified compaction / counts", d)
+    for d in [x for x in dis if x["kind"] != "fixupL-property"][:5]:
+        ctx.violation("fixupL-correspondence", "correspondence fixupL/countnz <-> Model/Fixup.lean (theorem Slu.fixupL_spec) no longer checks", d, no_input=True)
     n_cases, nmax = (600, 48) if ctx.quick() else (12000, 160)
     recs = S.sweep(ctx, n_cases, nmax, precs="ds", drivers=("gssv", "gssvx"))
     bad = S.judge(ctx, recs, ["wfL", "wfU", "permr", "permc"], "well-formedness")
